@@ -319,3 +319,14 @@ impl ReadCursor {
         }
     }
 }
+
+impl Drop for ReadCursor {
+    fn drop(&mut self) {
+        // No handle is left, so nobody can still be scanning the list
+        unsafe {
+            let group = self.readers.load(Ordering::Relaxed);
+            ptr::read(group);
+            alloc::deallocate(group, 1);
+        }
+    }
+}
